@@ -68,6 +68,15 @@ def build():
     if "clamp(" in ts[ts.find("impl Timestamp"):ts.find("impl fmt::Display for Timestamp")]:
         raise GenError("Timestamp date notation clamps instead of wrapping")
     defs.append(("date_cast_wraps", "bool", "true"))
+    # Serial from a point in time (jiff / chrono): seconds since the epoch cast to u32 (wraps mod 2^32)
+    fj = impl_body(src, r"impl\s+From<jiff::Timestamp>\s+for\s+Serial")
+    one(r"Self\(\s*value\.as_second\(\)\s+as\s+u32\s*\)", fj, "From<jiff::Timestamp> for Serial is `Self(value.as_second() as u32)`")
+    fc = impl_body(src, r"impl<T:\s*TimeZone>\s+From<DateTime<T>>\s+for\s+Serial")
+    one(r"Self\(\s*value\.timestamp\(\)\s+as\s+u32\s*\)", fc, "From<chrono::DateTime> for Serial is `Self(value.timestamp() as u32)`")
+    for body in (fj, fc):
+        if re.search(r"clamp\(|saturating|min\(|max\(|try_from|try_into", body):
+            raise GenError("Serial from a point in time clamps / checks instead of wrapping")
+    defs.append(("from_time_cast_wraps", "bool", "true"))
     # the derived comparison operators must not be overridden
     pc_impl = impl_body(src, r"impl\s+cmp::PartialOrd\s+for\s+Serial")
     for op in ("lt", "le", "gt", "ge"):
